@@ -229,6 +229,13 @@ def run_unit(tpl, scratch, tier, keep):
         if label is None and tag and tag.get('label'):
             label = tag['label']
         fn = (tag or {}).get('fn') or '?'
+        if label is None and 'decreases' in msg and line:
+            # reported at the loop keyword / fn header: map to the first termination label that follows
+            for ln in range(line, min(line + 120, len(unit.tags))):
+                tg = unit.tags[ln]
+                if tg and tg.get('label') and 'termination' in tg['label']:
+                    label = tg['label']
+                    break
         if label is None:
             label = '%s/implicit:%s@%s' % (fn, re.sub(r'\s+', ' ', msg)[:60], re.sub(r'\s+', ' ', src_text)[:80])
         entry = {'obligation': '%s/%s' % (name, label), 'message': msg, 'line': line, 'text': src_text,
